@@ -8,6 +8,7 @@
 /*======= Includes ==========================================================*/
 
 #include "binson_writer.h"
+#include "binson_verif.h"
 
 /*======= Local Macro Definitions ===========================================*/
 /*======= Type Definitions ==================================================*/
@@ -83,6 +84,7 @@ bool binson_write_name(binson_writer *writer, const char *name)
 }
 
 bool binson_write_object_begin(binson_writer *writer)
+VC_W_ONE_BYTE_CONTRACT(writer, 0x40)                                                             /*@ one-byte-token */
 {
     binson_value bval;
     uint8_t token = BINSON_DEF_OBJECT_BEGIN;
@@ -92,6 +94,7 @@ bool binson_write_object_begin(binson_writer *writer)
 }
 
 bool binson_write_object_end(binson_writer *writer)
+VC_W_ONE_BYTE_CONTRACT(writer, 0x41)                                                             /*@ one-byte-token */
 {
     binson_value bval;
     uint8_t token = BINSON_DEF_OBJECT_END;
@@ -101,6 +104,7 @@ bool binson_write_object_end(binson_writer *writer)
 }
 
 bool binson_write_array_begin(binson_writer *writer)
+VC_W_ONE_BYTE_CONTRACT(writer, 0x42)                                                             /*@ one-byte-token */
 {
     binson_value bval;
     uint8_t token = BINSON_DEF_ARRAY_BEGIN;
@@ -110,6 +114,7 @@ bool binson_write_array_begin(binson_writer *writer)
 }
 
 bool binson_write_array_end(binson_writer *writer)
+VC_W_ONE_BYTE_CONTRACT(writer, 0x43)                                                             /*@ one-byte-token */
 {
     binson_value bval;
     uint8_t token = BINSON_DEF_ARRAY_END;
@@ -119,6 +124,7 @@ bool binson_write_array_end(binson_writer *writer)
 }
 
 bool binson_write_boolean(binson_writer *writer, bool value)
+VC_W_ONE_BYTE_CONTRACT(writer, value ? 0x44 : 0x45)                                               /*@ one-byte-token */
 {
     binson_value bval;
     uint8_t token = (value) ? BINSON_DEF_TRUE : BINSON_DEF_FALSE;
@@ -208,6 +214,17 @@ bool binson_writer_verify(binson_writer *writer)
 /*======= Local function implementations ====================================*/
 
 static uint8_t _int_pack_size(int64_t length, uint8_t *buffer, bool is_double)
+VC_REQUIRES(VC_FRESH(buffer, 9))
+VC_ASSIGNS(__CPROVER_object_whole(buffer))
+VC_ENSURES(VC_RET == 1 + (is_double ? 8 : VC_WIDTH(length)))                                      /*@ width-minimal */
+VC_ENSURES(buffer[0] == (uint8_t) (VC_OLD(buffer[0]) +
+           (is_double ? 0 : (VC_WIDTH(length) == 1) ? 0 : (VC_WIDTH(length) == 2) ? 1 :
+                            (VC_WIDTH(length) == 4) ? 2 : 3)))                                    /*@ type-byte */
+VC_ENSURES(buffer[1] == VC_LE_BYTE(length, 0))                                                    /*@ bytes-le */
+VC_ENSURES(VC_RET >= 3 ==> buffer[2] == VC_LE_BYTE(length, 1))                                    /*@ bytes-le */
+VC_ENSURES(VC_RET >= 5 ==> (buffer[3] == VC_LE_BYTE(length, 2) && buffer[4] == VC_LE_BYTE(length, 3))) /*@ bytes-le */
+VC_ENSURES(VC_RET >= 9 ==> (buffer[5] == VC_LE_BYTE(length, 4) && buffer[6] == VC_LE_BYTE(length, 5) &&
+                            buffer[7] == VC_LE_BYTE(length, 6) && buffer[8] == VC_LE_BYTE(length, 7))) /*@ bytes-le */
 {
     uint8_t size = 0;
 
@@ -235,7 +252,11 @@ static uint8_t _int_pack_size(int64_t length, uint8_t *buffer, bool is_double)
     uint64_t uval = (uint64_t) length;
 
     uint8_t i;
-    for (i = 0; i < size; i++) {
+    for (i = 0; i < size; i++)
+    VC_LOOP_ASSIGNS(i, uval, __CPROVER_object_whole(buffer))
+    VC_LOOP_INVARIANT(i <= size)
+    VC_DECREASES(size - i)
+    {
         buffer[1 + i] = (uint8_t) (uval & 0xFFU);
         uval >>= 8U;
     }
@@ -247,6 +268,39 @@ static uint8_t _int_pack_size(int64_t length, uint8_t *buffer, bool is_double)
 static bool _write_token(binson_writer *writer,
                          binson_value *value,
                          binson_type type)
+VC_REQUIRES(VC_W_PTRS(writer) && VC_FRESH(value, sizeof(*value)))
+VC_REQUIRES(VC_T_SIMPLE(type) ==> VC_FRESH(value->raw.bptr, 1))
+VC_REQUIRES(VC_T_BLOB(type) ==> (value->bytes_value.bsize <= VC_MAX_BUF &&
+                                 VC_FRESH(value->bytes_value.bptr, value->bytes_value.bsize)))
+VC_ASSIGNS(VC_W_FRAME(writer))
+VC_ENSURES(VC_W_SAME_CONFIG(writer))
+VC_ENSURES(VC_W_POST_COUNTER(writer, VC_OLD(writer->buffer_used), VC_TOKEN_LEN(type, value)))    /*@ counter-exact */
+VC_ENSURES(!VC_T_VALID(type) ==> (!VC_RET && writer->error_flags == BINSON_ERROR_STATE))          /*@ bad-type-state */
+VC_ENSURES((VC_T_VALID(type) && !(VC_T_BLOB(type) && value->bytes_value.bsize > 2147483647)) ==>
+           VC_W_POST_ERROR(writer, VC_OLD(writer->buffer_used), VC_OLD(writer->error_flags),
+                                 VC_TOKEN_LEN(type, value)))                                       /*@ range-iff */
+VC_ENSURES((VC_T_BLOB(type) && value->bytes_value.bsize > 2147483647) ==>
+           writer->error_flags != BINSON_ERROR_NONE)                                               /*@ len-over-int32-rejected */
+VC_ENSURES(VC_RET == (writer->error_flags == BINSON_ERROR_NONE))                                  /*@ ret-iff-no-error */
+VC_ENSURES((writer->error_flags == BINSON_ERROR_NONE && VC_T_SIMPLE(type) && vc_j == 0) ==>
+           writer->buffer[VC_OLD(writer->buffer_used) + vc_j] == value->raw.bptr[0])              /*@ simple-byte */
+VC_ENSURES((writer->error_flags == BINSON_ERROR_NONE && type == BINSON_TYPE_INTEGER &&
+            vc_j < (size_t) 1 + VC_WIDTH(value->integer_value)) ==>
+           writer->buffer[VC_OLD(writer->buffer_used) + vc_j] ==
+           VC_DESC_BYTE(0x10, value->integer_value, vc_j))                                         /*@ integer-canonical */
+VC_ENSURES((writer->error_flags == BINSON_ERROR_NONE && type == BINSON_TYPE_DOUBLE && vc_j < 9) ==>
+           writer->buffer[VC_OLD(writer->buffer_used) + vc_j] ==
+           ((vc_j == 0) ? 0x46 : VC_LE_BYTE(value->integer_value, vc_j - 1)))                      /*@ double-8-bytes-le */
+VC_ENSURES((writer->error_flags == BINSON_ERROR_NONE && VC_T_BLOB(type) &&
+            vc_j < (size_t) 1 + VC_WIDTH((int64_t) value->bytes_value.bsize)) ==>
+           writer->buffer[VC_OLD(writer->buffer_used) + vc_j] ==
+           VC_DESC_BYTE((type == BINSON_TYPE_STRING) ? 0x14 : 0x18,
+                        (int64_t) value->bytes_value.bsize, vc_j))                                 /*@ length-canonical */
+VC_ENSURES((writer->error_flags == BINSON_ERROR_NONE && VC_T_BLOB(type) &&
+            vc_j < value->bytes_value.bsize) ==>
+           writer->buffer[VC_OLD(writer->buffer_used) + 1 +
+                          VC_WIDTH((int64_t) value->bytes_value.bsize) + vc_j] ==
+           value->bytes_value.bptr[vc_j])                                                          /*@ payload-verbatim */
 {
 
     if (NULL == writer) {
@@ -319,6 +373,16 @@ static bool _write_token(binson_writer *writer,
 }
 
 static bool _write(binson_writer *writer, bbuf *data)
+VC_REQUIRES(VC_W_PTRS(writer) && VC_FRESH(data, sizeof(*data)))
+VC_REQUIRES(data->bsize <= VC_MAX_BUF && VC_FRESH(data->bptr, data->bsize))
+VC_ASSIGNS(VC_W_FRAME_PIECE(writer, data->bsize))
+VC_ENSURES(VC_W_SAME_CONFIG(writer))
+VC_ENSURES(VC_W_POST_COUNTER(writer, VC_OLD(writer->buffer_used), data->bsize))                   /*@ counter-exact */
+VC_ENSURES(VC_W_POST_ERROR(writer, VC_OLD(writer->buffer_used), VC_OLD(writer->error_flags),
+                           data->bsize))                                                          /*@ range-iff */
+VC_ENSURES(VC_RET == (writer->error_flags == BINSON_ERROR_NONE))                                  /*@ ret-iff-no-error */
+VC_ENSURES((writer->error_flags == BINSON_ERROR_NONE && vc_j < data->bsize) ==>
+           writer->buffer[VC_OLD(writer->buffer_used) + vc_j] == data->bptr[vc_j])                /*@ payload-verbatim */
 {
     size_t c = writer->buffer_used + data->bsize;
 
